@@ -2912,6 +2912,7 @@ class MOFCompiler:
         if ns not in self.parser.classnames:
             self.parser.classnames[ns] = []
 
+        outer_embedded_objects = self.parser.embedded_objects
         try:
             # Set this variable to list to short-circuit insertion of created
             # classes and instances to this list rather than to the repository
@@ -2937,9 +2938,11 @@ class MOFCompiler:
             self.parser.log(pe.get_err_msg())
             raise
         finally:
-            # Force the embedded_iobjects variable to be reset telling the
-            # compiler not to insert new objects into this variable
-            self.parser.embedded_objects = None
+            # Restore the state of the enclosing compilation (which may
+            # itself be the compilation of an embedded instance)
+            self.parser.embedded_objects = outer_embedded_objects
+            self.parser.file = oldfile
+            self.parser.mof = oldmof
 
     def compile_string(self, mof, ns, filename=None):
         """
